@@ -44,8 +44,9 @@ def acceptor : Sys := [
   { points := [ pt [([fDone 0], [some 1, none])] [],
                 pt [([fErrClosed], [none])] [((2, 0), [none]), ((3, 1), [none])] ],     -- h.errors <- err
     onExit := cancelFun ++ [fDone 1] },
-  -- 2: serve$2 = handler.Run(): select { incoming ; ctx.Done ; errors }: an error ends the loop, a message does not
-  { points := [ pt [([fHandlerCtx], [none])] [((1, 1), [none]), ((5, 1), [some 0])] ],
+  -- 2: serve$2 = handler.Run(): select { incoming ; ctx.Done ; errors }: an error ends the loop; a message
+  --    is served and the loop goes on, or (no MsgType field) `serve` fails and Run returns its error
+  { points := [ pt [([fHandlerCtx], [none])] [((1, 1), [none]), ((5, 1), [some 0, none])] ],
     onExit := cancelFun ++ [fDone 2] },
   -- 3: processRemainingErrors$1: p0 = not started (until Run returns); p1 = <-h.errors until closed
   { points := [ pt [([fDone 2], [some 1])] [],
@@ -89,8 +90,8 @@ def initiator : Sys := [
                 pt [([fOnce], [none])] [((8, 0), [some 2])],
                 pt [([fOnce], [none])] [] ],
     onExit := closeI ++ [fDone 1] },
-  -- 2: Serve$2: handler.Run()
-  { points := [ pt [([fHandlerCtx], [none])] [((8, 1), [none]), ((5, 1), [some 0])] ],
+  -- 2: Serve$2: handler.Run() (a message without MsgType makes it return, see the accepting side)
+  { points := [ pt [([fHandlerCtx], [none])] [((8, 1), [none]), ((5, 1), [some 0, none])] ],
     onExit := closeI ++ [fDone 2] },
   -- 3: processRemainingErrors$1
   { points := [ pt [([fDone 2], [some 1])] [],
